@@ -11,8 +11,9 @@ Iv4 == {0, 1, 2, 3}
 
 RECURSIVE SeqsUpTo(_, _)
 SeqsUpTo(S, n) == IF n = 0 THEN {<<>>} ELSE LET P == SeqsUpTo(S, n - 1) IN P \cup {Append(p, x) : p \in P, x \in S}
-AllComps == SeqsUpTo({"conv", "bel"}, 3) \ {<<>>}                         \* 14 consists
-FewComps == {<<"conv">>, <<"bel">>, <<"conv", "bel">>, <<"bel", "bel", "conv">>}
+AllComps == SeqsUpTo({"conv", "bel", "hyb"}, 3) \ {<<>>}                  \* 39 consists of 1-3 units
+FewComps == {<<"conv">>, <<"bel">>, <<"hyb">>, <<"conv", "bel">>, <<"hyb", "conv">>, <<"bel", "hyb", "conv">>}
+KindComps == SeqsUpTo({"conv", "bel", "hyb"}, 2) \ {<<>>}                \* 12 consists, checked under every tree shape
 OneComp  == {<<"bel", "conv">>}
 
 Done == Ended \/ Len(sched) = MaxActs + 1
